@@ -229,6 +229,13 @@ def run(chk: Check) -> None:
             if rows:
                 gs = [0.5] + [min(max((rows[i][0] - rows[i - 1][0]).total_seconds(), 0.001), 600.0) for i in range(1, len(rows))]
                 corpus.append(([f for _, f in rows], gs))
+        for name in ("tests/tests/schedules/sched_001/packet.log", "tests/tests/schedules/sched_dhw/packet.log", "tests/tests/schedules/_sched_002/packet.log"):
+            rows = logs.get(name, [])[:60]
+            tail = logs.get("tests/tests/systems/heat_otb_00/packet.log", [])[:12]
+            if rows and tail:
+                gs = [0.5] + [min(max((rows[i][0] - rows[i - 1][0]).total_seconds(), 0.001), 600.0) for i in range(1, len(rows))]
+                gs += [260_000.0] + [1.0] * (len(tail) - 1)       # three days later
+                corpus.append(([f for _, f in rows] + [f for _, f in tail], gs))
         for ep in range(n_ep + len(corpus)):
             fixed_gaps = None
             if ep < len(corpus):
@@ -259,6 +266,9 @@ def run(chk: Check) -> None:
             slog.order.clear()
 
             gaps = fixed_gaps or [rnd.choice((0.05, 0.5, 2.0, 30.0, 400.0)) if i % 9 else 3.2 for i in range(len(h))]
+            if fixed_gaps is None and rnd.random() < 0.3:
+                # days go by somewhere in the history: the long-lived packets (schedule fragments, device info, ...) expire too
+                gaps[rnd.randrange(len(gaps))] = rnd.choice((90_000.0, 180_000.0, 400_000.0))
             if fixed_gaps is not None:
                 cps = [len(h) - 1]
 
